@@ -25,8 +25,8 @@ def to_json(v, rng=None, style=None):
 
 
 def json_stream(docs, rng=None):
-    sep = rng.choice(['\n', '', ' \n']) if rng else '\n'
-    return sep.join(to_json(d, rng) for d in docs) + '\n'
+    sep = rng.choice(['\n', '', ' \n', '\r\n', '\n\n', '\t']) if rng else '\n'
+    return sep.join(to_json(d, rng) for d in docs) + (rng.choice(['\n', '', '\r\n', ' ']) if rng else '\n')
 
 
 def shuffle_keys(v, rng):
@@ -205,9 +205,37 @@ def _yaml_list(l, ind, style, rng):
     return ''.join(out)
 
 
+def _noise_lines(text, rng, comment):
+    """Insert comment lines between top-level lines (lines that start in column 0 and do not continue a block)."""
+    if not rng or rng.random() > 0.15:
+        return text
+    out = []
+    for l in text.split('\n'):
+        if l and l[0] not in ' \t"\'' and rng.random() < 0.3 and not l.startswith(('---', '+++', '...')):
+            out.append(comment + rng.choice([' note', '', ' key: value', ' [x]']))
+        out.append(l)
+    return '\n'.join(out)
+
+
 def yaml_stream(docs, rng=None, style=None):
     parts = [to_yaml(d, rng, style) for d in docs]
-    return '---\n'.join(parts)
+    if not rng:
+        return '---\n'.join(parts)
+    plain = all('|' not in p and '&a' not in p for p in parts)
+    text = ''
+    for i, p in enumerate(parts):
+        if i:
+            text += rng.choice(['---\n', '---\n', '--- \n', '--- # next document\n', '...\n---\n'])
+        elif rng.random() < 0.15:
+            text += rng.choice(['---\n', '--- \n', '--- # first\n'])
+        text += p
+    if plain and style != 'flow':
+        text = _noise_lines(text, rng, '#')
+    if plain and rng.random() < 0.08:
+        text = text.replace('\n', '\r\n')
+    if rng.random() < 0.08 and text.endswith('\n') and not text.endswith('\n\n') and '|' not in text:
+        text = text[:-1]
+    return text
 
 
 _BaseLoader = getattr(yaml, 'CSafeLoader', yaml.SafeLoader)
@@ -339,14 +367,19 @@ def _toml_table(m, path, out, style, rng):
 
 def toml_stream(docs, rng=None, style=None):
     sep = rng.choice(['---\n', '+++\n']) if rng else '---\n'
-    return sep.join(to_toml(d, rng, style) for d in docs)
+    text = sep.join(to_toml(d, rng, style) for d in docs)
+    if rng and '"""' not in text and "'''" not in text:
+        text = _noise_lines(text, rng, '#')
+        if rng.random() < 0.08:
+            text = text.replace('\n', '\r\n')
+    return text
 
 
 _TOML_SPLIT = re.compile(r'(?m)^(?:---|\+\+\+)$')
 
 
 def parse_toml_stream(text, seps=('---',)):
-    pat = re.compile(r'(?m)^(?:%s)$' % '|'.join(re.escape(s) for s in seps))
+    pat = re.compile(r'(?m)^(?:%s)\r?$' % '|'.join(re.escape(s) for s in seps))
     return [tomllib.loads(part) for part in pat.split(text)]
 
 
